@@ -229,10 +229,28 @@ fn collect_strings(v: &Value, out: &mut Vec<String>) {
   }
 }
 
-/// find_deno_types (the real function) tabulated on every string of the value
+/// strings below any "leadingComments" key (the only texts the upgrade can hand to find_deno_types)
+fn collect_comment_strings(v: &Value, out: &mut Vec<String>) {
+  match v {
+    Value::Array(a) => a.iter().for_each(|x| collect_comment_strings(x, out)),
+    Value::Object(m) => {
+      for (k, x) in m {
+        if k == "leadingComments" {
+          collect_strings(x, out);
+        } else {
+          collect_comment_strings(x, out);
+        }
+      }
+    }
+    _ => {}
+  }
+}
+
+/// find_deno_types (the real function) tabulated on every string that occurs below a
+/// "leadingComments" key of the value
 fn fdt_table(v: &Value) -> Sx {
   let mut strings = vec![];
-  collect_strings(v, &mut strings);
+  collect_comment_strings(v, &mut strings);
   strings.sort();
   Sx::L(
     strings
@@ -278,11 +296,11 @@ fn gen_string(rng: &mut Rng) -> String {
 }
 
 fn gen_usize(rng: &mut Rng) -> usize {
-  match rng.below(10) {
-    0 => 0,
-    1 => (NUM_LIMIT - 1) as usize,
-    2 => (rng.next() % NUM_LIMIT) as usize,
-    3 => u32::MAX as usize + rng.below(3),
+  match rng.below(40) {
+    0..=3 => 0,
+    4 => (NUM_LIMIT - 1) as usize,
+    5 => (rng.next() % NUM_LIMIT) as usize,
+    6 => u32::MAX as usize + rng.below(3),
     _ => rng.below(200),
   }
 }
@@ -1160,7 +1178,7 @@ fn v1_case_for(j: Value, origin: &str, rng: &mut Rng, n_comments: usize) -> Case
   Case {
     input: Sx::L(vec![Sx::A(3), input_json, tbl, opt_info_sx(&real, false)]),
     obs: Sx::L(vec![obs_json, opt_info_sx(&real, true), Sx::judge(true)]),
-    meta: json!({"kind": "v1", "origin": origin, "entry": j, "upgraded": upgraded, "real_ok": real.is_some()}),
+    meta: json!({"kind": "v1", "origin": origin, "entry": j, "real_ok": real.is_some()}),
     nontrivial: n_comments > 0,
     dist: vec![
       (format!("v1_{}", origin), 1),
@@ -1320,7 +1338,7 @@ pub fn run(cfg: &RunCfg) {
   let n_manifest = corpus.manifest_entries.len() as u64;
   let hand = handwritten_json();
   let n_hand = hand.len() as u64;
-  let n_random: u64 = if cfg.tier == Tier::Quick { 30_000 } else { 1_000_000 };
+  let n_random: u64 = if cfg.tier == Tier::Quick { 16_000 } else { 500_000 };
   let fixed = n_enum + n_corpus + n_manifest + n_hand;
   let total = fixed + n_random;
   eprintln!("c13: {} enumerated, {} corpus modules, {} corpus manifest entries, {} handwritten, {} generated", n_enum, n_corpus, n_manifest, n_hand, n_random);
